@@ -1,5 +1,5 @@
 SPECIFICATION MCSpec
 CONSTANTS MaxFaults = 1 MaxSigs = 1 Sigs = {"TERM"} AllFlagCombos = TRUE MaxFiles = 2
 INVARIANTS TypeOK DataSafe FailureKeepsSource FailureCleansUp NoJunkLeft ExitZeroMeansDone FailureIsReported
-           KeepNeverRemoves NoForeignLost NoOverwrite CleanBetweenFiles AbortDiesBySignal
+           KeepNeverRemoves NoForeignLost NoOverwrite CleanBetweenFiles AbortDiesBySignal PendingHoleFresh
 CHECK_DEADLOCK FALSE
